@@ -1895,7 +1895,10 @@ func (txn *KVTxn) asyncPessimisticRollback(ctx context.Context, keys [][]byte, s
 			}
 		}
 
-		err := committer.pessimisticRollbackMutations(retry.NewBackofferWithVars(ctx, pessimisticRollbackMaxBackoff, txn.vars), &PlainMutations{keys: keys})
+		// The rollback runs in background and must not be aborted when the caller cancels its context after the
+		// failed lock call has returned, otherwise the locks are left behind. Keep the values of ctx only.
+		rollbackCtx := context.WithoutCancel(ctx)
+		err := committer.pessimisticRollbackMutations(retry.NewBackofferWithVars(rollbackCtx, pessimisticRollbackMaxBackoff, txn.vars), &PlainMutations{keys: keys})
 		if err != nil {
 			logutil.Logger(ctx).Warn("[kv] pessimisticRollback failed.", zap.Error(err))
 		}
